@@ -222,7 +222,21 @@ def long_tri_cases(draw, tier):
     for i in range(n):
         T[i, i] = d[i] * 10.0 ** exps[i]
     B, _ = draw(gen.long_qarray(n, r, "generic"))
-    return {"T": T, "B": B, "mode": "long", "exps": exps if n <= 40 else exps[:8] + ["..."]}
+    mode = "long"
+    if draw(st.integers(0, 2)) == 0:
+        # every entry q, diagonal q/2 (T = q (ones - I/2)): well conditioned (cond O(n^2)), no cancellation along rows
+        q = draw(gen.unit_q())
+        T = np.broadcast_to(q, (n, n, 4)).copy()
+        for i in range(n):
+            T[i, i] = 0.5 * q
+        exps = [0] * n
+        mode = "long+same_phase"
+    Tu_, Tl_ = T.copy(), T.copy()
+    for i in range(n):
+        Tu_[i, :i] = 0.0
+        Tl_[i, i + 1:] = 0.0
+    return {"T": T, "B": B, "Bu": ref.qmm(Tu_, B), "Bl": ref.qmm(Tl_, B), "mode": mode + "+consistent_rhs",
+            "exps": exps if n <= 40 else exps[:8] + ["..."]}
 
 
 def check_hess(case):
@@ -261,7 +275,7 @@ def check_hess(case):
 
 @st.composite
 def tri_cases(draw, tier):
-    n = draw(st.integers(1, 6 if tier == "quick" else 8))
+    n = draw(st.integers(1, 8 if tier == "quick" else 10))
     r = draw(st.integers(1, 4))
     T = draw(gen.qmat(n, n, patterns=("generic", "generic", "int", "pure_imag", "sparse")))
     T = T.copy()
@@ -279,6 +293,20 @@ def tri_cases(draw, tier):
         exps.append(e)
         T[i, i] = d * draw(st.sampled_from([1.0, 2.0, 0.5, 3.0])) * 10.0 ** e
     B = draw(gen.qmat(n, r, patterns=("generic", "generic", "int", "sparse")))
+    if draw(st.integers(0, 2)) == 0:
+        # all entries share one quaternion phase (T = q * real matrix): sums along rows accumulate instead of cancelling
+        q = draw(gen.unit_q())
+        W = np.abs(T[..., 0]) + 0.25
+        T = ref.qmul(q.reshape(1, 1, 4), np.stack([W, 0 * W, 0 * W, 0 * W], axis=-1))
+        mode = mode + "+same_phase"
+    if draw(st.booleans()):
+        # consistent right-hand side B = T X0 with a benign X0: the SOLUTION is O(1) even when T^-1 is huge, so
+        # intermediate quantities of an unstable scheme are not masked by an equally large answer
+        Tu_, Tl_ = T.copy(), T.copy()
+        for i in range(n):
+            Tu_[i, :i] = 0.0
+            Tl_[i, i + 1:] = 0.0
+        return {"T": T, "B": B, "Bu": ref.qmm(Tu_, B), "Bl": ref.qmm(Tl_, B), "mode": mode + "+consistent_rhs", "exps": exps}
     return {"T": T, "B": B, "mode": mode, "exps": exps}
 
 
@@ -290,7 +318,8 @@ def check_tri(case):
     out = Out()
     T, B = case["T"], case["B"]
     n, r = T.shape[0], B.shape[1]
-    out.label(case["mode"], f"rhs={r}")
+    out.label(*case["mode"].split("+"), f"rhs={r}")
+    Bu, Bl = case.get("Bu", B), case.get("Bl", B)
     Tu = T.copy()
     Tl = T.copy()
     for i in range(n):
@@ -302,21 +331,21 @@ def check_tri(case):
     # component-form back substitution (works in place on its right-hand side: pass copies)
     ok, res = out.call("UtriangleQsparse", L.utils.UtriangleQsparse,
                        *[np.ascontiguousarray(Tu[..., c]) for c in range(4)],
-                       *[np.array(B[..., c], dtype=float, order="C", copy=True) for c in range(4)])
+                       *[np.array(Bu[..., c], dtype=float, order="C", copy=True) for c in range(4)])
     if ok:
         X = np.stack([np.asarray(x, dtype=float) for x in res], axis=-1)
         if out.true("UtriangleQsparse:shape", X.shape == B.shape, f"{X.shape}"):
-            err = ref.modulus(ref.qmm(Tu, X) - B)
-            out.le("UtriangleQsparse:T X = B", float(np.max(err / _tri_bound(Tu, X, B, n))), 1.0,
+            err = ref.modulus(ref.qmm(Tu, X) - Bu)
+            out.le("UtriangleQsparse:T X = B", float(np.max(err / _tri_bound(Tu, X, Bu, n))), 1.0,
                    f"entrywise backward error/bound, diag exps {case['exps']}")
-    for name, fn, Tm in (("_solve_upper_triangular_quat", L.solver._solve_upper_triangular_quat, Tu),
-                         ("_solve_lower_triangular_quat", L.solver._solve_lower_triangular_quat, Tl)):
-        ok, Xq = out.call(name, fn, Q(Tm), Q(B))
+    for name, fn, Tm, Bm in (("_solve_upper_triangular_quat", L.solver._solve_upper_triangular_quat, Tu, Bu),
+                             ("_solve_lower_triangular_quat", L.solver._solve_lower_triangular_quat, Tl, Bl)):
+        ok, Xq = out.call(name, fn, Q(Tm), Q(Bm))
         if ok:
             X = F(Xq)
             if out.true(name + ":shape", X.shape == B.shape, f"{X.shape}"):
-                err = ref.modulus(ref.qmm(Tm, X) - B)
-                out.le(name + ":T X = B", float(np.max(err / _tri_bound(Tm, X, B, n))), 1.0,
+                err = ref.modulus(ref.qmm(Tm, X) - Bm)
+                out.le(name + ":T X = B", float(np.max(err / _tri_bound(Tm, X, Bm, n))), 1.0,
                        f"entrywise backward error/bound, diag exps {case['exps']}")
     out.nontrivial = r >= 2 or any(abs(e) >= 3 for e in case["exps"] if not isinstance(e, str))
     out.sample = {"n": n, "rhs": r, "mode": case["mode"], "exps": case["exps"]}
